@@ -6,10 +6,11 @@ import pipeline
 import talgen
 
 PID = 'C10'
-PROOF_MODULES = ['ChamProofs.Props.C10', 'ChamProofs.Props.C10Scope']
+PROOF_MODULES = ['ChamProofs.Props.C10', 'ChamProofs.Props.C10Scope', 'ChamProofs.Props.C10Offer']
 THEOREMS = ['ChamVerif.C10_translate_once', 'ChamVerif.C10_translate_explicit', 'ChamVerif.C10_empty_not_translated', 'ChamVerif.C10_name_emits_placeholder',
             'ChamVerif.C10_collapse_idempotent', 'ChamVerif.C10_domain_restored', 'ChamVerif.I18n.neutral_all', 'ChamVerif.C10_settings_scoped',
-            'ChamVerif.C10_on_error_leaks']
+            'ChamVerif.C10_on_error_leaks', 'ChamVerif.C10_other_offered', 'ChamVerif.C10_plain_not_offered',
+            'ChamVerif.C10_conversion_offers_once', 'ChamVerif.C10_conversion_plain', 'ChamVerif.C10_false_boolean_not_offered']
 LEVEL_TEXT = ('Proved in Lean on the interpreter model: evaluating a Translate node whose body renders calls the translation function exactly once '
               'more than its body does, with msgid = default = the body\'s output with white space collapsed and trimmed, the mapping of the '
               'names collected in the body and the frame\'s domain/context/target, and emits exactly what the function returns '
@@ -20,13 +21,17 @@ LEVEL_TEXT = ('Proved in Lean on the interpreter model: evaluating a Translate n
               'before, provided the node contains no tal:on-error at its own function level — a setting is in force exactly inside the '
               'element that makes it, across macro calls, slot fillers, repeats and translations (C10_settings_scoped, from neutral_all: '
               'induction on the fuel over the four mutually recursive evaluator functions and every node kind); the proviso is necessary: '
-              'C10_on_error_leaks is the D-10a witness, decided by kernel evaluation of the model. The full contract (nested translations, names under condition/repeat/omit-tag, '
+              'C10_on_error_leaks is the D-10a witness, decided by kernel evaluation of the model. Inserted values: a value whose class is not None / marker / bytes / str / exact int / '
+              '__html__ object is offered to the translation function exactly once per insertion, before the conversion, with its string form and the frame\'s '
+              'domain, context and target language, at every insertion site (C10_other_offered, C10_conversion_offers_once); every other value is inserted '
+              'without a call (C10_plain_not_offered, C10_conversion_plain); a false value of a boolean attribute is dropped unconverted and unoffered '
+              '(C10_false_boolean_not_offered). The full contract (nested translations, names under condition/repeat/omit-tag, '
               'i18n:attributes, implicit translation, macro/slot settings) is judged by a constructive oracle over an i18n grammar that '
               'predicts the ordered call log and the output for three translation functions, and the model is tied to the code by '
               'correspondence of call logs.')
-LEVEL_NOTE = ('Trusted: Lean kernel; the interpreter model. Not in the model (oracle only): the offering of non-string inserted values to the '
-              'translation function (the model does not log those calls), settings across macro calls (implicit translation of interpolated text is '
-              'in the model since round 6). Known finding D-10a: settings made inside an element that fails under tal:on-error stay in force. D-14a (mapping '
+LEVEL_NOTE = ('Trusted: Lean kernel; the interpreter model. The offering of non-string inserted values is in the model since round 7 (TCall.offered; the call log of the correspondence contains '
+              'those calls, 500 generated templates per quick run over every value class x insertion site x settings); float values are not in the model (oracle only). '
+              'Settings across macro calls and slot fillers are in the model (macroEnter / fillerEnter; C10_settings_scoped). Known finding D-10a: settings made inside an element that fails under tal:on-error stay in force. D-14a (mapping '
               'order) was repaired in /repo (fix: aef6a17).')
 RULE = ('templates from an i18n grammar: translate with/without explicit id, nested translate, 0..3 named children under condition / repeat / '
         'omit-tag / content, domain/context/target on any ancestor, i18n:attributes with and without ids, implicit_i18n_translate / '
@@ -362,8 +367,67 @@ def make(rng):
     return src, node, items
 
 
+OFFER_VARS = [['who', {'str': 'W&ho'}], ['n', 3], ['yes', True], ['no', False], ['items', {'list': [1, {'str': 'a<b'}]}], ['empty', {'list': []}],
+              ['tup', {'tuple': [1, 2]}], ['dic', {'dict': [[{'str': 'k'}, 1]]}], ['o', {'obj': 0}], ['h', {'obj': 1}], ['falsy', {'obj': 2}],
+              ['nothing2', None], ['attrs_d', {'dict': [[{'str': 'title'}, {'obj': 0}], [{'str': 'id'}, {'list': [1]}], [{'str': 'lang'}, {'str': 's'}]]}]]
+OFFER_OBJS = [{'str': 'ob<j', 'truthy': True, 'attrs': [], 'items': []}, {'str': 'hh', 'truthy': True, 'html': '<h/>', 'attrs': [], 'items': []},
+              {'str': 'fal&sy', 'truthy': False, 'attrs': [], 'items': []}]
+
+
+def offer_case(rng):
+    """inserted values of every class at every kind of insertion site, under i18n settings made by ancestors, inside
+    translated elements and named children: which of them reach the translation function, with which settings, in which order"""
+    names = [v[0] for v in OFFER_VARS if v[0] != 'attrs_d']
+
+    def site():
+        v = rng.choice(names)
+        k = rng.randrange(10)
+        if k == 0:
+            return '${%s}' % v
+        if k == 1:
+            return '<p tal:content="%s">d</p>' % v
+        if k == 2:
+            return '<p title="${%s}"/>' % v
+        if k == 3:
+            return '<p tal:attributes="title %s"/>' % v
+        if k == 4:
+            return '<p tal:replace="%s">d</p>' % v
+        if k == 5:
+            return '<p tal:content="structure %s">d</p>' % v
+        if k == 6:
+            return '<input tal:attributes="checked %s"/>' % v
+        if k == 7:
+            return '<p tal:attributes="attrs_d"/>'
+        if k == 8:
+            return '<p title="a ${%s} b ${%s}">t ${%s} u</p>' % (v, rng.choice(names), rng.choice(names))
+        return '<p tal:define="z %s" tal:content="z"/>' % v
+
+    def block(depth):
+        parts = [site() for _ in range(rng.randint(1, 3))]
+        body = ''.join(parts)
+        r = rng.random()
+        if depth > 0 and r < 0.5:
+            body += block(depth - 1)
+        w = rng.randrange(7)
+        if w == 0:
+            return '<div i18n:domain="dz%d">%s</div>' % (depth, body)
+        if w == 1:
+            return '<div i18n:context="cx%d">%s</div>' % (depth, body)
+        if w == 2:
+            return '<div i18n:target="string:de%d">%s</div>' % (depth, body)
+        if w == 3:
+            return '<span i18n:translate="">Say %s now</span>' % body
+        if w == 4:
+            return '<span i18n:translate="">A <b i18n:name="x%d">%s</b> B</span>' % (depth, body)
+        if w == 5:
+            return '<div tal:repeat="i [1, 2]" i18n:domain="rp">%s</div>' % body
+        return '<div>%s</div>' % body
+    src = '<html>%s</html>' % ''.join(block(rng.choice([0, 1, 2])) for _ in range(rng.randint(1, 2)))
+    return {'src': src, 'vars': OFFER_VARS, 'objs': OFFER_OBJS, 'translate': 'record', 'cfg': {}}
+
+
 def correspondence(ctx):
-    cases = []
+    cases = [offer_case(ctx.rng) for _ in range(ctx.budget(500, 15000))]
     for _ in range(ctx.budget(1500, 40000)):
         src, node, items = make(ctx.rng)
         cases.append({'src': src, 'vars': [['yes', True], ['no', False], ['items', {'list': items}], ['who', {'str': 'W&ho'}]], 'objs': [],
